@@ -213,7 +213,7 @@ func (nv *nodeVariable) Execute(ctx *ExecutionContext, writer TemplateWriter) *E
 
 	if !nv.expr.FilterApplied("safe") && !value.safe && (value.IsString() || value.isStringer()) && ctx.Autoescape {
 		// apply escape filter
-		value, err = filters["escape"](value, nil)
+		value, err = filters["escape"](value, AsValue(nil))
 		if err != nil {
 			return err
 		}
